@@ -615,6 +615,10 @@ class Sym:
         if cv and id(e) in cv:
             return cv[id(e)]          # value computed by the forward interpreter when it evaluated this (new, in-package) helper in place
         fn = e.func
+        if isinstance(fn, ast.Name) and not e.keywords and not e.args and fn.id in ("dict", "list", "tuple") and not self.rd.reaching(fn.id, at if at is not None else self.cfg.entry.id):
+            # the empty-container constructors are the empty displays (builtins not rebound locally)
+            lit = {"dict": ast.Dict(keys=[], values=[]), "list": ast.List(elts=[], ctx=ast.Load()), "tuple": ast.Tuple(elts=[], ctx=ast.Load())}[fn.id]
+            return self.ev(lit, at, depth + 1)
         if isinstance(fn, ast.Name) and not e.keywords:
             if fn.id == "abs" and len(e.args) == 1:
                 p, _ = self.ev(e.args[0], at, depth + 1).sign_normalised()
